@@ -52,11 +52,11 @@ CPU_MODES_THOROUGH = CPU_MODES + [
 PROPS = {
     "C01": dict(ties=['Loops', 'Protocol', 'ProtocolMp', 'Grouping', 'Schedules', 'Consts', 'GoIpa.Lemmas.Grouping', 'GoIpa.Lemmas.DivideOnDomain', 'GoIpa.Lemmas.MpAlgebra', 'GoIpa.Lemmas.MpComplete', 'GoIpa.Lemmas.MpVerifier', 'GoIpa.Props.C01Complete', 'GoIpa.Lemmas.ZpField', 'GoIpa.Lemmas.Primes', 'GoIpa.Props.Concrete', 'GoIpa.Lemmas.Simulation', 'GoIpa.Props.ConcreteExec', 'GoIpa.Props.C01Translated'], level="proof", selftest=True, modes=CPU_MODES, thorough=dict(modes=CPU_MODES_THOROUGH),
                 rule="openings sets over n in {1..300}, six z patterns (all equal, all distinct, two clusters, single index after a gap, straddling group, random), polynomials zero/constant/unit/sparse/r-1/random, commitments as shared pointers / rescaled / sign-flipped, labels empty..70 bytes; each case under several CPU-count/GOMAXPROCS configurations (taskset)."),
-    "C02": dict(ties=['Loops', 'Protocol', 'Schedules', 'Consts', 'GoIpa.Props.C02Mp'], level="proof", selftest=True,
+    "C02": dict(ties=['Loops', 'Protocol', 'BVector', 'Schedules', 'Consts', 'GoIpa.Props.C02Mp'], level="proof", selftest=True,
                 rule="honest (label,Cs,zs,ys,proof) tuples and every single-component perturbation, reorderings, dropped/duplicated openings, splices of two honest proofs, malformed shapes, well-formed garbage; each implementation decision also re-evaluated under three re-representations of all group elements."),
-    "C03": dict(ties=['Loops', 'Protocol', 'ProtocolMp', 'Grouping', 'Schedules', 'Consts'], level="proof", selftest=True, modes=CPU_MODES, thorough=dict(modes=CPU_MODES_THOROUGH),
+    "C03": dict(ties=['Loops', 'Protocol', 'BVector', 'ProtocolMp', 'Grouping', 'Schedules', 'Consts'], level="proof", selftest=True, modes=CPU_MODES, thorough=dict(modes=CPU_MODES_THOROUGH),
                 rule="as C01 plus stand-alone IPA proofs; byte-for-byte comparison of the serialized proof and of the post-proof challenge with the Lean model (which reproduces the published cross-implementation vectors), under several CPU-count/GOMAXPROCS configurations."),
-    "C04": dict(ties=['Loops', 'Protocol', 'Schedules', 'Consts', 'GoIpa.Lemmas.IpaAlgebra', 'GoIpa.Lemmas.FoldingScalars', 'GoIpa.Props.C04Value', 'GoIpa.Lemmas.Simulation', 'GoIpa.Props.ConcreteExec'], level="proof", selftest=True, modes=[{"name": "default"}, {"name": "cpu3", "prefix": taskset(3)}, {"name": "cpu6-procs5", "prefix": taskset(6), "env": {"GOMAXPROCS": "5"}}],
+    "C04": dict(ties=['Loops', 'Protocol', 'BVector', 'Schedules', 'Consts', 'GoIpa.Lemmas.IpaAlgebra', 'GoIpa.Lemmas.FoldingScalars', 'GoIpa.Props.C04Value', 'GoIpa.Lemmas.Simulation', 'GoIpa.Props.ConcreteExec'], level="proof", selftest=True, modes=[{"name": "default"}, {"name": "cpu3", "prefix": taskset(3)}, {"name": "cpu6-procs5", "prefix": taskset(6), "env": {"GOMAXPROCS": "5"}}],
                 rule="evaluation points 0,1,254,255,256,257,2^64-1,2^64,2^64+1,r-1,r-256,random x polynomials zero/constant/unit/sparse/r-1/random; result p(z) must be accepted, p(z)+1, p(z)-1 and 0 rejected (asserted on the implementation); barycentric value against direct Lagrange evaluation."),
     "C05": dict(ties=['Formulas', 'Consts', 'Selector', 'Precomp'], level="proof",
                 modes=[{"name": "default"}, {"name": "cpu6", "prefix": taskset(6)}, {"name": "cpu3-procs3", "prefix": taskset(3)}],
